@@ -68,6 +68,25 @@ func DT(sum []byte) uint32 {
 
 // Format renders v mod 10^digits left-padded with '0' to digits characters.
 func Format(v uint32, digits int) string {
+	if digits >= 1 && digits <= 18 {
+		// 64-bit arithmetic is exact here (10^18 < 2^63); same definition as the big-integer form below
+		m := uint64(1)
+		for i := 0; i < digits; i++ {
+			m *= 10
+		}
+		x := uint64(v) % m
+		b := make([]byte, digits)
+		for i := digits - 1; i >= 0; i-- {
+			b[i] = byte('0' + x%10)
+			x /= 10
+		}
+		return string(b)
+	}
+	return FormatBig(v, digits)
+}
+
+// FormatBig is the definition written with big integers (used by the self-test to cross-check Format).
+func FormatBig(v uint32, digits int) string {
 	m := new(big.Int).Exp(big.NewInt(10), big.NewInt(int64(digits)), nil)
 	x := new(big.Int).Mod(new(big.Int).SetUint64(uint64(v)), m)
 	return fmt.Sprintf("%0*s", digits, x.String())
